@@ -13,7 +13,7 @@
    `flatten` is the specification: the item list of the single file obtained by pasting every
    imported file in place of its first import, files identified by canonical absolute path. *)
 From Coq Require Import String List Bool Arith.
-From JMCV Require Import Model.Import Proofs.Import.
+From JMCV Require Import Model.Import Proofs.Import Model.ImportPath Proofs.ImportPath.
 Import ListNotations.
 
 (* Full statement (repaired code).  For every tree, directory listing whose glob results are
@@ -137,3 +137,135 @@ Example C17_nonvacuous :
   /\ flatten t ds ["R"; "p"]%string false ["sub"; ".."; "main.jmc"]%string 6 =
     Ok [FLoad 1; FDef 4; FLoad 8; FLoad 6; FDef 7; FLoad 5; FDef 2; FLoad 3].
 Proof. vm_compute. split; reflexivity. Qed.
+
+(* Strengthening round 4 — the PATH handling of the import branch (Model/ImportPath.v).  The model now starts from the STRING of an
+   import statement as the tokenizer hands it over (`SrcImport s`, projects `srctree`, `parse_project_src` = `parse_project` after
+   `lower_tree`) and from a description `fs` of the directory tree (files and folders by canonical path).
+   `lower_import s` is what lexer.py does with the string: wildcard iff it ends in "/*" or "\*", the folder text being the string
+   without its last two characters; otherwise a named import; the text is cut at "/" only (POSIX pathlib: a backslash is an ordinary
+   character of a name).  `import_files ds cwd X s` = the files the statement, written in file X, hands to parse_file, in order. *)
+Theorem C17_import_string_kind :
+  forall s,
+    (forall d, strip_wild s = Some d <-> (s = (d ++ "/*")%string \/ s = (d ++ "\*")%string))
+    /\ (forall d, strip_wild s = Some d -> lower_import s = IWild (is_abs d) (split_slash d))
+    /\ (strip_wild s = None -> lower_import s = IImport (is_abs s) (split_slash s)).
+Proof. exact import_kind_spec. Qed.
+Print Assumptions C17_import_string_kind.
+
+(* the spelling grammar `spells k q raw` talks about components; a string is its components with "/" in between *)
+Theorem C17_spelling_strings :
+  forall l, l <> [] -> forallb noslash l = true -> split_slash (join_slash l) = l.
+Proof. exact split_join. Qed.
+Print Assumptions C17_spelling_strings.
+
+(* A NAMED import reads exactly one file, <folder>/<name>.jmc - for every spelling of the modelled grammar: "." and empty components
+   (leading "./", doubled and trailing slashes), detours `x/..` through any name, leading ".."s (k levels up from the importer's
+   folder, at the root it stays), relative or absolute, suffix written or left out.  The result does not mention the directory
+   tree: a folder <name> next to <name>.jmc, a file <name> without suffix, <name>.jmc.jmc, the other case spelling ... play no part. *)
+Theorem C17_named_import_one_file :
+  forall ds cwd X s k (q : list comp) (name : comp),
+    no_dotdot X = true -> strip_wild s = None ->
+    ( (name <> ""%string /\ spells k (q ++ [(name ++ ".jmc")%string]) (split_slash s))
+      \/ (exists r : list comp, split_slash s = r ++ [name] /\ spells k q r /\ plain name /\ has_jmc_suffix name = false) ) ->
+    import_files ds cwd X s = Ok [ upk k (base_of X (is_abs s)) ++ q ++ [(name ++ ".jmc")%string] ].
+Proof. exact named_import_one_file. Qed.
+Print Assumptions C17_named_import_one_file.
+
+(* A WILDCARD import (either ending) of a folder spelled any way reads exactly the .jmc FILES that lie below that folder - each once,
+   nothing else (no file of a sibling folder, of the importer's folder, no folder that happens to be called x.jmc) - and is
+   "Directory not found" exactly when the folder does not exist or cannot be walked to: `folder.is_dir()` is answered by the operating
+   system on the UNRESOLVED path, so every name the spelling passes through must be an existing folder (`walk_ok (fs_dirs fs) B comps`;
+   a detour `zz/..` through a name that does not exist fails for a wildcard, whereas a named import folds it away).
+   `listing_ok fs ds`: the listings Path.glob returns describe the directory tree `fs`. *)
+Theorem C17_wildcard_exact_files :
+  forall fs ds cwd X s d k q,
+    no_dotdot X = true -> listing_ok fs ds -> strip_wild s = Some d -> spells k q (split_slash d) ->
+    let B := base_of X (is_abs d) in
+    let D := upk k B ++ q in
+    if walk_ok (fs_dirs fs) B (pynorm (split_slash d)) && is_dir fs D
+    then exists fl, import_files ds cwd X s = Ok fl /\ NoDup fl /\ (forall p, In p fl <-> In p (jmc_files_below fs D))
+    else import_files ds cwd X s = Err (EDirNotFound D).
+Proof. exact wildcard_exact_files. Qed.
+Print Assumptions C17_wildcard_exact_files.
+
+(* ... where "the .jmc files below D" are the FILE nodes of the tree strictly below D whose name matches `*.jmc` *)
+Theorem C17_jmc_files_below :
+  forall fs D p,
+    In p (jmc_files_below fs D) <-> In (p, NFile) fs /\ below D p = true /\ glob_jmc (last p ""%string) = true.
+Proof. exact jmc_files_below_spec. Qed.
+Print Assumptions C17_jmc_files_below.
+
+(* the test evaluated on every generated project (directory tree and listings as found on disk) implies `listing_ok` *)
+Theorem C17_listing_check_sound : forall fs ds, listing_okb fs ds = true -> listing_ok fs ds.
+Proof. exact listing_okb_sound. Qed.
+Print Assumptions C17_listing_check_sound.
+
+(* The files a project reads are EXACTLY the files its import statements lead to from the main file (`reach`: the main file; a file
+   handed to parse_file by an import statement of a reachable file): each of them is read, nothing else is. *)
+Theorem C17_reads_exactly_reachable :
+  forall t ds cwd mabs mraw fuel evs,
+    no_dotdot cwd = true ->
+    forallb (fun kv => forallb no_dotdot (snd kv)) ds = true ->
+    parse_project Repaired t ds cwd mabs mraw fuel = Ok evs ->
+    forall p, In p (opens evs) <-> reach t ds cwd (resolve cwd (mkR mabs (pynorm mraw))) p.
+Proof. exact reads_exactly_reachable. Qed.
+Print Assumptions C17_reads_exactly_reachable.
+
+(* BYSTANDERS are never read: a file that is not the main file, that no import string of a file that is read resolves to, and that
+   is in the listing of no folder a wildcard of such a file names, is not opened - whatever it is called and wherever it lies. *)
+Theorem C17_bystander_never_read :
+  forall (t : srctree) ds cwd mabs mraw fuel evs b,
+    no_dotdot cwd = true ->
+    forallb (fun kv => forallb no_dotdot (snd kv)) ds = true ->
+    parse_project_src Repaired t ds cwd mabs mraw fuel = Ok evs ->
+    b <> resolve cwd (mkR mabs (pynorm mraw)) ->
+    (forall f items s fl, In f (opens evs) -> lookup t f = Some items -> In (SrcImport s) items ->
+                          import_files ds cwd f s = Ok fl -> ~ In b fl) ->
+    ~ In b (opens evs).
+Proof. exact src_bystander_never_read. Qed.
+Print Assumptions C17_bystander_never_read.
+
+(* C17_import_flatten for projects given as text: whatever the import strings are *)
+Theorem C17_import_strings_flatten :
+  forall (t : srctree) ds cwd mabs mraw fuel,
+    no_dotdot cwd = true ->
+    forallb (fun kv => forallb no_dotdot (snd kv)) ds = true ->
+    length t + 2 <= fuel ->
+    match parse_project_src Repaired t ds cwd mabs mraw fuel with
+    | Ok evs => flatten (lower_tree t) ds cwd mabs mraw fuel = Ok (items_of evs) /\ NoDup (opens evs)
+    | Err e => e <> EFuel /\ flatten (lower_tree t) ds cwd mabs mraw fuel = Err e
+    end.
+Proof. exact src_import_flatten. Qed.
+Print Assumptions C17_import_strings_flatten.
+
+(* Non-vacuity: a module file lib.jmc next to its parts folder lib/ (which holds a folder called d.jmc, a text file and a file of the
+   other case spelling), a bystander, a file whose name contains a backslash.  Named and wildcard spellings, both wildcard endings. *)
+Example C17_paths_nonvacuous :
+  let pp := fun l : list comp => ("R" :: "p" :: l)%string in
+  let P := pp [] in let M := pp ["main.jmc"]%string in
+  let fs := [ (["R"]%string, NDir); (P, NDir); (M, NFile); (pp ["lib.jmc"]%string, NFile); (pp ["lib"]%string, NDir);
+              (pp ["lib"; "x.jmc"]%string, NFile); (pp ["lib"; "X.jmc"]%string, NFile); (pp ["lib"; "notes.txt"]%string, NFile);
+              (pp ["lib"; "d.jmc"]%string, NDir); (pp ["lib"; "d.jmc"; "y.jmc"]%string, NFile);
+              (pp ["by.jmc"]%string, NFile); (pp ["sub\c.jmc"]%string, NFile) ] in
+  let lib := [pp ["lib"; "X.jmc"]%string; pp ["lib"; "d.jmc"; "y.jmc"]%string; pp ["lib"; "x.jmc"]%string] in
+  let top := [pp ["by.jmc"]%string; pp ["lib.jmc"]%string; M; pp ["sub\c.jmc"]%string] in
+  let ds := [ (pp ["lib"]%string, lib); (pp ["lib"; "d.jmc"]%string, [pp ["lib"; "d.jmc"; "y.jmc"]%string]);
+              (P, top ++ lib); (["R"]%string, top ++ lib) ] in
+  listing_okb fs ds = true
+  /\ import_files ds P M "lib" = Ok [pp ["lib.jmc"]%string]
+  /\ import_files ds P M "./sub/..//lib.jmc/" = Ok [pp ["lib.jmc"]%string]
+  /\ import_files ds P M "lib/*" = Ok lib /\ import_files ds P M "lib\*" = Ok lib /\ import_files ds P M "lib/../lib/.\*" = Ok lib
+  /\ import_files ds P M "zz/../lib/*" = Err (EDirNotFound (pp ["lib"]%string))
+  /\ import_files ds P M "sub\c" = Ok [pp ["sub\c.jmc"]%string]
+  /\ import_files ds P M "lib/" = Ok [pp ["lib"; ".jmc"]%string]
+  /\ import_files ds P M "*" = Ok [pp ["*.jmc"]%string]
+  /\ import_files ds P M "lib.jmc/*" = Err (EDirNotFound (pp ["lib.jmc"]%string))
+  /\ spells 0 ["lib.jmc"]%string (split_slash "./sub/..//lib.jmc/")
+  /\ spells 0 ["lib"]%string (split_slash "zz/../lib/.").
+Proof.
+  vm_compute. repeat split; try reflexivity.
+  - apply sp_dot. apply (sp_detour "sub" [] 0)%string; [repeat split; discriminate|apply sp_nil|].
+    apply sp_empty. apply sp_name; [repeat split; discriminate|]. apply sp_empty. apply sp_nil.
+  - apply (sp_detour "zz" [] 0)%string; [repeat split; discriminate|apply sp_nil|].
+    apply sp_name; [repeat split; discriminate|]. apply sp_dot. apply sp_nil.
+Qed.
